@@ -39,4 +39,10 @@ TEXT = {
         "level_note": TRUST + " Positional bindings are not compared across subsets (an ambiguous spec may legitimately pick another derivation).",
         "technique": "metamorphic property-based testing over environment configurations (rapid) plus reference-model differential",
     },
+    "C08": {
+        "level_text": "Bounded-exhaustive plus random differential testing of the spec compiler against an independent recogniser: all strings up to length 6 (quick) / 7 (thorough) over a 19-symbol character-class alphabet under three declared/undeclared namings, and 10^5-10^6 rapid-generated longer strings (grammar-derived, undeclared names, edits, repository corpus); verdict, token tiling (text, position, type) and error-position range are compared, and the public surface (Run panics with the positioned error before any Action or interceptor) is checked on a sample.",
+        "design_ref": "DESIGN.md section 5 (C08)",
+        "level_note": TRUST + " Exhaustive only up to the stated length per character class; beyond it sampled.",
+        "technique": "bounded exhaustive enumeration + property-based differential testing against an independent recogniser (rapid)",
+    },
 }
